@@ -27,6 +27,9 @@ pub enum C12Case {
     /// one entry whose alternatives all name the SAME package: (operator index, required version index) each;
     /// installed version index (POOL.len() = absent); then a second entry on another, installed package
     SamePkg { alts: Vec<(usize, usize)>, inst: usize },
+    /// entries whose alternatives are drawn from THREE shared package names (0 = x, 1 = y, 2 = z (>= 1)), so that entries
+    /// repeat, overlap and are prefixes of one another; `installed` is a bit mask over the three packages
+    Shared { entries: Vec<Vec<u8>>, installed: u8 },
 }
 
 pub struct C12;
@@ -168,6 +171,34 @@ fn check_same(alts: &[(usize, usize)], inst: usize) -> Vec<Viol> {
     out
 }
 
+const SHARED_NAMES: [&str; 3] = ["x", "y", "z (>= 1)"];
+fn check_shared(entries: &[Vec<u8>], installed: u8) -> Vec<Viol> {
+    let mut out = vec![];
+    let mut map: HashMap<String, Version> = HashMap::new();
+    for (i, n) in ["x", "y", "z"].iter().enumerate() {
+        if installed & (1 << i) != 0 {
+            map.insert(n.to_string(), "1".parse().unwrap());
+        }
+    }
+    let text = entries.iter().map(|e| e.iter().map(|a| SHARED_NAMES[*a as usize]).collect::<Vec<_>>().join(" | ")).collect::<Vec<_>>().join(", ");
+    let sat = |a: &u8| installed & (1 << *a) != 0;
+    let want = entries.iter().all(|e| e.iter().any(sat));
+    let closure = |name: &str| -> Option<Version> { map.get(name).cloned() };
+    for (how, r) in ll_variants(&text) {
+        let got = r.satisfied_by(closure);
+        if got != want {
+            out.push(viol("lossless-shared-packages", format!("field {:?} ({}) with installed mask {:03b}: lossless says {}, expected {}", text, how, installed, got, want)));
+        }
+    }
+    for (how, r) in ly_variants(&text) {
+        let got = r.satisfied_by(closure);
+        if got != want {
+            out.push(viol("lossy-shared-packages", format!("field {:?} ({}) with installed mask {:03b}: lossy says {}, expected {}", text, how, installed, got, want)));
+        }
+    }
+    out
+}
+
 fn check_nest(entries: &[Vec<u8>]) -> Vec<Viol> {
     let mut out = vec![];
     let mut map: HashMap<String, Version> = HashMap::new();
@@ -233,7 +264,7 @@ impl Prop for C12 {
         vec!["the hard-coded order of the version pool is the trusted reference (written from deb-version(7))".into()]
     }
     fn n_shards(&self, t: Tier) -> usize {
-        1 + 1 + t.pick(3, 4) + 1
+        1 + 1 + t.pick(3, 4) + 1 + 1
     }
     fn explore(&self, t: Tier, shard: usize, f: &mut dyn FnMut(&C12Case) -> Verdict) {
         let n = pool(t);
@@ -247,6 +278,42 @@ impl Prop for C12 {
             }),
             1 => {
                 f(&C12Case::Nest { entries: vec![] });
+            }
+            k if k == 3 + t.pick(3, 4) => {
+                // entries over three shared package names: 1-2 entries of 1-3 alternatives, 3 entries of 1-2 (thorough 1-3)
+                let seqs = |max: usize| -> Vec<Vec<u8>> {
+                    let mut out: Vec<Vec<u8>> = vec![];
+                    let mut frontier: Vec<Vec<u8>> = vec![vec![]];
+                    for _ in 0..max {
+                        let mut next = vec![];
+                        for s in &frontier {
+                            for a in 0..3u8 {
+                                let mut t2 = s.clone();
+                                t2.push(a);
+                                next.push(t2);
+                            }
+                        }
+                        out.extend(next.iter().cloned());
+                        frontier = next;
+                    }
+                    out
+                };
+                let (s3, s2) = (seqs(3), seqs(t.pick(2, 3)));
+                for installed in 0..8u8 {
+                    for a in &s3 {
+                        f(&C12Case::Shared { entries: vec![a.clone()], installed });
+                        for b in &s3 {
+                            f(&C12Case::Shared { entries: vec![a.clone(), b.clone()], installed });
+                        }
+                    }
+                    for a in &s2 {
+                        for b in &s2 {
+                            for c in &s2 {
+                                f(&C12Case::Shared { entries: vec![a.clone(), b.clone(), c.clone()], installed });
+                            }
+                        }
+                    }
+                }
             }
             k if k == 2 + t.pick(3, 4) => {
                 // alternatives on the same package: 1..3 alternatives x (6 operators x 3 required versions) x installed
@@ -298,6 +365,7 @@ impl Prop for C12 {
             C12Case::Cell { op, req, inst } => check_cell(*op, *req, *inst),
             C12Case::Nest { entries } => check_nest(entries),
             C12Case::SamePkg { alts, inst } => check_same(alts, *inst),
+            C12Case::Shared { entries, installed } => check_shared(entries, *installed),
         });
         if !matches!(c, C12Case::Nest { entries } if entries.is_empty()) {
             st.nontrivial += 1;
@@ -309,6 +377,7 @@ impl Prop for C12 {
                         C12Case::Cell { .. } => "cell-ok",
                         C12Case::Nest { .. } => "nest-ok",
                         C12Case::SamePkg { .. } => "same-package-ok",
+                        C12Case::Shared { .. } => "shared-packages-ok",
                     });
                 }
                 vs
@@ -319,6 +388,24 @@ impl Prop for C12 {
     fn shrinks(&self, c: &C12Case) -> Vec<C12Case> {
         match c {
             C12Case::Cell { .. } => vec![],
+            C12Case::Shared { entries, installed } => {
+                let mut out = vec![];
+                for i in 0..entries.len() {
+                    if entries.len() > 1 {
+                        let mut x = entries.clone();
+                        x.remove(i);
+                        out.push(C12Case::Shared { entries: x, installed: *installed });
+                    }
+                    for j in 0..entries[i].len() {
+                        if entries[i].len() > 1 {
+                            let mut x = entries.clone();
+                            x[i].remove(j);
+                            out.push(C12Case::Shared { entries: x, installed: *installed });
+                        }
+                    }
+                }
+                out
+            }
             C12Case::SamePkg { alts, inst } => {
                 let mut out = vec![];
                 for i in 0..alts.len() {
